@@ -1210,6 +1210,17 @@ impl<'a> GeneratorState<'a> {
         self.acc_in_use = false;
         self.tmp_in_use = false;
 
+        // At the entry of a function nothing is known about the processor flags
+        // (they describe the end of the previously generated function)
+        if let Some(f) = &self.current_function {
+            if let Some(c) = self.functions_code.get(f) {
+                if c.is_empty() {
+                    self.flags = FlagsState::Unknown;
+                    self.carry_flag_ok = false;
+                }
+            }
+        }
+
         if let Some(label) = &code.label {
             self.label(&format!(".{}", label))?;
         }
